@@ -247,16 +247,18 @@ class LDMService:
             tuple of ordered tuples of data objects.
         """
 
-        def build_key(item):
-            return tuple(
-                Utils.get_nested(item, Utils.find_attribute(order.attribute, item))
-                for order in orders
+        # One stable sort per order tuple, least significant attribute first, so that every attribute
+        # is ordered in its own direction.
+        ordered = search_results
+        for order in reversed(orders):
+            ordered = sorted(
+                ordered,
+                key=lambda item, order=order: Utils.get_nested(
+                    item, Utils.find_attribute(order.attribute, item)
+                ),
+                reverse=order.ordering_direction == OrderingDirection.DESCENDING,
             )
-
-        reverse = any(
-            order.ordering_direction == OrderingDirection.DESCENDING for order in orders
-        )
-        return (tuple(sorted(search_results, key=build_key, reverse=reverse)),)
+        return (tuple(ordered),)
 
     def add_provider_data(self, data: AddDataProviderReq) -> int | None:
         """
